@@ -195,6 +195,16 @@ type ExprCase struct {
 	Org  int64  `json:"org"`
 	Pos  string `json:"pos"` // dd dw db imm32 imm16 disp resb equ
 	E    *ENode `json:"e"`
+	// Ctx "widen": an out-of-reach Jcc over 200 reserved bytes precedes the statement, so the
+	// program is assembled twice and $ differs between the rounds
+	Ctx string `json:"ctx,omitempty"`
+}
+
+func (c *ExprCase) prefix() string {
+	if c.Ctx == "widen" {
+		return widenPrefix
+	}
+	return ""
 }
 
 func (c *ExprCase) equLines() string {
@@ -273,8 +283,19 @@ func checkC06(c ExprCase) Verdict {
 		org = 0
 	}
 	text := c.E.Render()
-	v := Verdict{Key: fmt.Sprintf("%s|%d|%d|%s", c.Pos, c.Mode, c.Org, text), Class: c.Pos}
-	val, ok := c.E.eval(org) // the statement under test is the first emitting statement: $ = origin
+	v := Verdict{Key: fmt.Sprintf("%s|%d|%d|%s|%s", c.Pos, c.Mode, c.Org, text, c.Ctx), Class: c.Pos}
+	// the statement under test is the first emitting statement after the optional prefix: $ = origin + prefix length
+	skip := 0
+	if c.Ctx != "" {
+		rp := asm.Assemble(c.header() + c.prefix())
+		if asm.Diagnosed(rp, asm.Baseline(c.header())) || len(rp.Out) < 200 {
+			v.Skip = "prefix alone diagnosed"
+			return v
+		}
+		skip = len(rp.Out)
+		v.Class += "|" + c.Ctx
+	}
+	val, ok := c.E.eval(org + int64(skip))
 	if !ok {
 		v.Skip = "division by zero or value beyond 2^62 (outside the documented domain)"
 		return v
@@ -292,9 +313,9 @@ func checkC06(c ExprCase) Verdict {
 			return v
 		}
 	}
-	src := c.header() + c.equLines() + c.stmt(text, false, iv)
+	src := c.header() + c.equLines() + c.prefix() + c.stmt(text, false, iv)
 	lit := fmt.Sprintf("%d", iv)
-	srcLit := c.header() + c.stmt(lit, true, iv)
+	srcLit := c.header() + c.prefix() + c.stmt(lit, true, iv)
 	r := asm.Assemble(src)
 	rl := asm.Assemble(srcLit)
 	base := asm.Baseline(c.header())
@@ -330,14 +351,14 @@ func checkC06(c ExprCase) Verdict {
 	switch c.Pos {
 	case "dd", "dw", "db", "equ":
 		w := map[string]int{"dd": 4, "dw": 2, "db": 1, "equ": 4}[c.Pos]
-		if len(r.Out) < w {
-			v.Fail = fmt.Sprintf("%q emitted %d bytes\n%s", text, len(r.Out), src)
+		if len(r.Out) < skip+w {
+			v.Fail = fmt.Sprintf("%q emitted %d bytes\n%s", text, len(r.Out)-skip, src)
 			v.Sig = sig("short")
 			return v
 		}
 		var got int64
 		for i := w - 1; i >= 0; i-- {
-			got = got<<8 | int64(r.Out[i])
+			got = got<<8 | int64(r.Out[skip+i])
 		}
 		mask := int64(1)<<(8*uint(w)) - 1
 		if got != iv&mask {
@@ -348,7 +369,7 @@ func checkC06(c ExprCase) Verdict {
 	}
 	// (b) metamorphic: the expression and its literal value assemble identically
 	if !bytes.Equal(r.Out, rl.Out) {
-		v.Fail = fmt.Sprintf("expression %q (= %d) and its literal value assemble differently in position %s:\n  expr:    % x\n  literal: % x\n--- source ---\n%s", text, iv, c.Pos, head(r.Out, 24), head(rl.Out, 24), src)
+		v.Fail = fmt.Sprintf("expression %q (= %d) and its literal value assemble differently in position %s:\n  expr:    % x\n  literal: % x\n--- source ---\n%s", text, iv, c.Pos, head(r.Out[min(skip, len(r.Out)):], 24), head(rl.Out[min(skip, len(rl.Out)):], 24), src)
 		v.Sig = sig("meta")
 		return v
 	}
@@ -376,7 +397,7 @@ func checkC06(c ExprCase) Verdict {
 
 var propC06 = &Prop[ExprCase]{
 	ID:   "C06",
-	Rule: "expression trees up to depth 4 over boundary and uniform literals (decimal, negative decimal, hex), + - * / %, needed and redundant parentheses, EQU names standing for sub-expressions, $, random spacing around operators; in every operand position (DD, DW, DB, 32- and 16-bit immediates, displacement, RESB, EQU body); oracle (a) arbitrary-precision reference evaluator with usual precedence, left associativity, truncating division; (b) metamorphic: expression vs its literal value assemble identically; non-trivial = operators of both precedence classes, or parentheses, or a negative operand of / or %; distinct by (position, mode, origin, rendered expression)",
+	Rule: "expression trees up to depth 4 over boundary and uniform literals (decimal, negative decimal, hex), + - * / %, needed and redundant parentheses, EQU names standing for sub-expressions, $, random spacing around operators; in every operand position (DD, DW, DB, 32- and 16-bit immediates, displacement, RESB, EQU body), one case in five behind an out-of-reach Jcc that forces a second assembly round; oracle (a) arbitrary-precision reference evaluator with usual precedence, left associativity, truncating division; (b) metamorphic: expression vs its literal value assemble identically; non-trivial = operators of both precedence classes, or parentheses, or a negative operand of / or %; distinct by (position, mode, origin, rendered expression)",
 	Gen: func(t *rapid.T) ExprCase {
 		c := ExprCase{
 			Mode: rapid.SampledFrom([]int{0, 32}).Draw(t, "mode"),
@@ -386,6 +407,9 @@ var propC06 = &Prop[ExprCase]{
 		var equs []*ENode
 		used := map[string]bool{"qq": true}
 		c.E = genENode(t, rapid.IntRange(1, 4).Draw(t, "depth"), c.Pos != "equ", &equs, used)
+		if rapid.IntRange(0, 4).Draw(t, "ctx") == 0 {
+			c.Ctx = "widen"
+		}
 		return c
 	},
 	Check: checkC06,
